@@ -1091,6 +1091,25 @@ fn fixed_p64(ctx: &Ctx) {
     }
 }
 
+const ARNAULT: &[(&str, u64, u64)] = &[
+    ("770521943283756959269292011", 61, 73),
+    ("722480109295156401983016669811", 61, 73),
+    ("27589394425076139487486909498483", 61, 73),
+    ("31987319855272034270968516489655971", 61, 73),
+    ("23185970176241853720621862712977617611", 61, 73),
+    ("1062153062258718176602327767106336702146971", 61, 73),
+    ("22389228916230130809569345654770516198206288491", 61, 73),
+    ("784528335679859389703298139054291", 61, 73),
+    ("616055197783116803109680849284234719203", 61, 73),
+    ("23200508615571364976579971291", 101, 109),
+    ("411150449970754249958791888880131", 101, 109),
+    ("388263976484054817844689836007031051", 101, 109),
+    ("503518221337441057594184889860928731971", 101, 109),
+    ("16994788137077012041647916704569017690734331", 101, 109),
+    ("576032388437820692430434348915665479793166011", 101, 109),
+    ("576599494207019628647166432176222689702644567331", 101, 109),
+];
+
 fn fixed_big(ctx: &Ctx) {
     let fx = fixtures();
     let mut cases: Vec<BigCase> = vec![];
@@ -1113,6 +1132,18 @@ fn fixed_big(ctx: &Ctx) {
             origin: "psi_12/13".into(),
             parts: PSI_FACTORS[i].iter().map(|&x| u(x)).collect(),
         });
+    }
+    // Arnault-type Carmichael numbers n = p1 (k2 (p1-1) + 1) (k3 (p1-1) + 1), p1 chosen by the Chinese remainder
+    // theorem so that n is a strong pseudoprime to the first 16..18 prime bases, 280..490 bits (the family that
+    // defeats implementations which lower the number of Miller-Rabin rounds for large inputs).  Only (p1, k2, k3)
+    // is stored: the three parts are certified prime, Korselt's criterion and the number of fooled bases are
+    // re-established by the reference tests in `check_big` before the library is asked.
+    for (p1, k2, k3) in ARNAULT {
+        let p1 = U1024::from_str_radix(p1, 10).expect("decimal");
+        let one = U1024::ONE;
+        let p2 = (p1 - one) * u(*k2) + one;
+        let p3 = (p1 - one) * u(*k3) + one;
+        cases.push(BigCase { kind: "product".into(), origin: "arnault".into(), parts: vec![p1, p2, p3] });
     }
     for k in 0..=512u32 {
         let n = if k == 512 { U1024::ZERO } else { U1024::ONE << k };
